@@ -80,7 +80,7 @@ class Gen:
                 self.count("type-stmt")
                 self.tag("ST"); self.typedecl()
             else:
-                self.tag("SV"); self.w("var"); self.w(self.r.choice(NAMES)); self.w(":"); self.ty()
+                self.tag("SV"); self.w("var"); self.w(self.r.choice(NAMES)); self.w(":"); self.tyx()
                 self.absolute()
         elif c == 7:
             self.count("uses-stmt")
@@ -159,9 +159,57 @@ class Gen:
         else:
             self.tag("IR"); self.w("["); self.w(self.r.choice(TLITS)); self.w("to"); self.w(self.r.choice(TLITS)); self.w("]")
 
+    def evar(self):
+        if self.r.chance(1, 3):
+            self.tag("EV"); self.w(self.r.choice(NAMES)); self.w("="); self.w(self.r.choice(["0", "1", "17"]))
+        else:
+            self.tag("EN"); self.w(self.r.choice(NAMES))
+
+    def cop(self):
+        c = self.r.below(5)
+        if c <= 1:
+            self.tag("CB"); self.w(self.r.choice(TYPES))
+        elif c == 2:
+            self.count("type:enum-empty")
+            self.tag("CE"); self.w("("); self.w(")")
+        else:
+            self.count("type:enum")
+            self.tag("CL"); self.w("("); self.evar()
+            for _ in range(self.r.below(3)):
+                self.tag(","); self.w(","); self.evar()
+            self.tag("."); self.w(")")
+
+    def tyx(self):
+        c = self.r.below(10)
+        if c == 0:
+            self.count("type:record")
+            self.tag("XR"); self.w("record")
+            if self.r.chance(1, 3):
+                self.tag("+"); self.w("("); self.w(self.r.choice(TYPES)); self.w(")")
+            else:
+                self.tag("-")
+            self.tag("{")
+            for _ in range(self.r.below(4)):
+                self.tag("F"); self.w(self.r.choice(NAMES)); self.w(":"); self.ty()
+            self.tag("}"); self.w("endrecord")
+        elif c == 1:
+            self.count("type:proc")
+            self.tag("XP"); self.w("proc"); self.params()
+        elif c == 2:
+            self.count("type:func")
+            self.tag("XF"); self.w("func"); self.params(); self.w("return"); self.w(self.r.choice(TYPES))
+        else:
+            self.ty()
+
     def ty(self):
-        c = self.r.below(12)
-        if c <= 3:
+        c = self.r.below(14)
+        if c >= 12:
+            self.count("type:composed")
+            self.tag("YC"); self.cop()
+            for _ in range(self.r.below(3)):
+                self.tag("+"); self.w("+"); self.cop()
+            self.tag(".")
+        elif c <= 3:
             self.count("type:basic")
             self.tag("YB"); self.w(self.r.choice(TYPES))
         elif c == 4:
@@ -196,7 +244,7 @@ class Gen:
             self.tag("YI"); self.w("instanceOf"); self.w(self.r.choice(TYPES))
 
     def typedecl(self):
-        self.w("type"); self.w(self.r.choice(TYPES)); self.w(":"); self.ty()
+        self.w("type"); self.w(self.r.choice(TYPES)); self.w(":"); self.tyx()
 
     def absolute(self):
         if self.r.chance(1, 4):
@@ -305,7 +353,7 @@ class Gen:
                 self.tag("+"); self.w("memory")
             else:
                 self.tag("-")
-            self.w(self.r.choice(NAMES)); self.w(":"); self.ty()
+            self.w(self.r.choice(NAMES)); self.w(":"); self.tyx()
             self.tag("{")
             for _ in range(self.r.choice([0, 0, 0, 1, 2])):
                 self.count("field-modifier")
